@@ -210,6 +210,8 @@ class ParameterConfig:
                 elif child.tag.endswith("dblValue"):
                     child.text = str(new_value)
                     return
+                elif child.tag.endswith("description"):
+                    pass
                 else:
                     raise Exception("Unsupported tag {}".format(child.tag))
 
